@@ -8,3 +8,8 @@
 (lemma noMarkerNoExtra ((l Lst) (k String) (b Bool))
   (=> (not (anyBoolKey l k b)) (and (not (markerExtra l k b)) (= (dropMarkers l k b) l))) :induct l)
 (lemma noStrNoRemove ((l Lst) (s String)) (=> (not (memStr l s)) (= (removeStr l s) l)) :induct l)
+(lemma lsetLen ((a Lst) (i Int) (x Val)) (= (llen (lset a i x)) (llen a)) :induct a)
+(lemma lrepeatLen ((x Val) (n Int)) (= (llen (lrepeat x n)) (ite (<= n 0) 0 n)) :induct n)
+(lemma ltakeSet ((a Lst) (i Int) (x Val)) (=> (and (<= 0 i) (< i (llen a))) (= (ltake (lset a i x) (+ i 1)) (app (ltake a i) (LCons x LNil)))) :induct a)
+(lemma ltakeAll ((a Lst) (n Int)) (=> (>= n (llen a)) (= (ltake a n) a)) :induct a)
+(lemma finLsnoc ((a Lst) (x Val)) (= (finL (app a (LCons x LNil))) (app (finL a) (LCons (finF x) LNil))) :induct a)
